@@ -3,6 +3,11 @@ import Props.C11
 import Props.C12
 import Props.C13
 import SdxModel.Sample
+import SdxModel.Convert
+import SdxProofs.CellOrigin
+import SdxProofs.ValueMap
+import Props.C01
+import Props.C08
 /-!
 # C07 — Any supported table synthesizes; schema, dtypes and value domains preserved
 
@@ -167,3 +172,239 @@ theorem C07_sampleDefault_schema (E : Env Float) (F : Forest Float) (convs : Lis
   rw [C07_buildTable_columns E F convs isIntegral _ 0.7 cl' streams s1 s2 t h2 j]
   exact wellFormed_columns _ _ _ hwf' j
 
+/-! ## Value domains of the cells (one cluster, from the typed table) -/
+
+section
+variable {α : Type} [Field α] [LinearOrder α] [IsStrictOrderedRing α] [FloorRing α] [Inhabited α]
+
+/-- what a cell of a column can be, by the column's convertor: a null, or a value of the column's own kind; a string is one of the
+strings of the value map or a mask `prefix*index` -/
+def CellFits (cv : Conv α) (cell : Cell α) : Prop :=
+  cell = .null ∨
+  match cv with
+  | .bool => ∃ b, cell = .bool b
+  | .real _ _ _ => ∃ x, cell = .real x
+  | .int _ _ => ∃ i, cell = .int i
+  | .timestamp _ _ => ∃ t, cell = .ts t
+  | .string vm _ => ∃ str, cell = .str str ∧ ((∃ pre v, str = pre ++ "*" ++ toString (v : Nat)) ∨ str ∈ vm)
+
+/-- `_generate` yields a null or a value of the convertor's kind, for every range and RNG state -/
+theorem C07_cell_fits (E : Env α) (cv : Conv α) (nm : α) (iv : Ival α) (s s' : List (Draw α)) (cell : Cell α) (f : α)
+    (h : (generateCell E cv nm iv).run s = .ok ((cell, f), s')) : CellFits cv cell := by
+  cases cv with
+  | string vm safe =>
+    cases cell with
+    | str str =>
+      right
+      refine ⟨str, rfl, ?_⟩
+      rcases string_cell_origin E vm safe nm iv s s' str f h with ⟨_, _, hvm⟩ | ⟨v, _, hvm⟩ | hmask
+      · exact Or.inr (List.mem_of_getElem? hvm)
+      · exact Or.inr (List.mem_of_getElem? hvm)
+      · exact Or.inl hmask
+    | null => exact Or.inl rfl
+    | bool b =>
+      exfalso
+      unfold generateCell at h
+      split_ifs at h with hn
+      · simp [pure, StateT.pure, StateT.run, Except.pure] at h
+      · unfold fromInterval at h
+        simp only at h
+        split_ifs at h with h1 h2
+        · simp [throw, throwThe, MonadExceptOf.throw, StateT.lift, StateT.run, bind, Except.bind] at h
+        · split at h <;> simp [pure, StateT.pure, StateT.run, Except.pure, throw, throwThe, MonadExceptOf.throw, StateT.lift, bind, Except.bind] at h
+        · obtain ⟨v, _, _, _, hc⟩ := C11_string_result vm safe iv s s' _ f h
+          rcases hc with ⟨_, str, _, h2⟩ | ⟨_, a, b', _, _, h3⟩ <;> simp at *
+    | int i =>
+      exfalso
+      unfold generateCell at h
+      split_ifs at h with hn
+      · simp [pure, StateT.pure, StateT.run, Except.pure] at h
+      · unfold fromInterval at h
+        simp only at h
+        split_ifs at h with h1 h2
+        · simp [throw, throwThe, MonadExceptOf.throw, StateT.lift, StateT.run, bind, Except.bind] at h
+        · split at h <;> simp [pure, StateT.pure, StateT.run, Except.pure, throw, throwThe, MonadExceptOf.throw, StateT.lift, bind, Except.bind] at h
+        · obtain ⟨v, _, _, _, hc⟩ := C11_string_result vm safe iv s s' _ f h
+          rcases hc with ⟨_, str, _, h2⟩ | ⟨_, a, b', _, _, h3⟩ <;> simp at *
+    | real x =>
+      exfalso
+      unfold generateCell at h
+      split_ifs at h with hn
+      · simp [pure, StateT.pure, StateT.run, Except.pure] at h
+      · unfold fromInterval at h
+        simp only at h
+        split_ifs at h with h1 h2
+        · simp [throw, throwThe, MonadExceptOf.throw, StateT.lift, StateT.run, bind, Except.bind] at h
+        · split at h <;> simp [pure, StateT.pure, StateT.run, Except.pure, throw, throwThe, MonadExceptOf.throw, StateT.lift, bind, Except.bind] at h
+        · obtain ⟨v, _, _, _, hc⟩ := C11_string_result vm safe iv s s' _ f h
+          rcases hc with ⟨_, str, _, h2⟩ | ⟨_, a, b', _, _, h3⟩ <;> simp at *
+    | ts t =>
+      exfalso
+      unfold generateCell at h
+      split_ifs at h with hn
+      · simp [pure, StateT.pure, StateT.run, Except.pure] at h
+      · unfold fromInterval at h
+        simp only at h
+        split_ifs at h with h1 h2
+        · simp [throw, throwThe, MonadExceptOf.throw, StateT.lift, StateT.run, bind, Except.bind] at h
+        · split at h <;> simp [pure, StateT.pure, StateT.run, Except.pure, throw, throwThe, MonadExceptOf.throw, StateT.lift, bind, Except.bind] at h
+        · obtain ⟨v, _, _, _, hc⟩ := C11_string_result vm safe iv s s' _ f h
+          rcases hc with ⟨_, str, _, h2⟩ | ⟨_, a, b', _, _, h3⟩ <;> simp at *
+  | bool =>
+    unfold generateCell at h
+    split_ifs at h with hn
+    · simp only [pure, StateT.pure, StateT.run, Except.pure, Except.ok.injEq, Prod.mk.injEq] at h
+      exact Or.inl h.1.1.symm
+    · right
+      simp only [fromInterval, generateFloat, bind_pure_comp, StateT.run_bind] at h
+      simp only [Functor.map, StateT.map, bind, Except.bind, StateT.bind, StateT.run, pure, StateT.pure, Except.pure] at h
+      cases hd : (drawUnit (α := α) s) with
+      | error e => rw [hd] at h; simp at h
+      | ok p =>
+        rw [hd] at h
+        simp only [Except.ok.injEq, Prod.mk.injEq] at h
+        exact ⟨_, h.1.1.symm⟩
+  | real a b p =>
+    unfold generateCell at h
+    split_ifs at h with hn
+    · simp only [pure, StateT.pure, StateT.run, Except.pure, Except.ok.injEq, Prod.mk.injEq] at h
+      exact Or.inl h.1.1.symm
+    · right
+      simp only [fromInterval, generateFloat, bind_pure_comp, StateT.run_bind] at h
+      simp only [Functor.map, StateT.map, bind, Except.bind, StateT.bind, StateT.run, pure, StateT.pure, Except.pure] at h
+      cases hd : (drawUnit (α := α) s) with
+      | error e => rw [hd] at h; simp at h
+      | ok p =>
+        rw [hd] at h
+        simp only [Except.ok.injEq, Prod.mk.injEq] at h
+        exact ⟨_, h.1.1.symm⟩
+  | int a b =>
+    unfold generateCell at h
+    split_ifs at h with hn
+    · simp only [pure, StateT.pure, StateT.run, Except.pure, Except.ok.injEq, Prod.mk.injEq] at h
+      exact Or.inl h.1.1.symm
+    · right
+      simp only [fromInterval, generateFloat, bind_pure_comp, StateT.run_bind] at h
+      simp only [Functor.map, StateT.map, bind, Except.bind, StateT.bind, StateT.run, pure, StateT.pure, Except.pure] at h
+      cases hd : (drawUnit (α := α) s) with
+      | error e => rw [hd] at h; simp at h
+      | ok p =>
+        rw [hd] at h
+        simp only [Except.ok.injEq, Prod.mk.injEq] at h
+        exact ⟨_, h.1.1.symm⟩
+  | timestamp a b =>
+    unfold generateCell at h
+    split_ifs at h with hn
+    · simp only [pure, StateT.pure, StateT.run, Except.pure, Except.ok.injEq, Prod.mk.injEq] at h
+      exact Or.inl h.1.1.symm
+    · right
+      simp only [fromInterval, generateFloat, bind_pure_comp, StateT.run_bind] at h
+      simp only [Functor.map, StateT.map, bind, Except.bind, StateT.bind, StateT.run, pure, StateT.pure, Except.pure] at h
+      cases hd : (drawUnit (α := α) s) with
+      | error e => rw [hd] at h; simp at h
+      | ok p =>
+        rw [hd] at h
+        simp only [Except.ok.injEq, Prod.mk.injEq] at h
+        exact ⟨_, h.1.1.symm⟩
+
+/-- what a cell of a column of the input table can be: a null, or a value of the column's type; in a string column an input string or a mask -/
+def ColFits : RawCol α → Cell α → Prop
+  | .bool _, cell => cell = .null ∨ ∃ b, cell = .bool b
+  | .int _, cell => cell = .null ∨ ∃ i, cell = .int i
+  | .real _, cell => cell = .null ∨ ∃ x, cell = .real x
+  | .ts _, cell => cell = .null ∨ ∃ t, cell = .ts t
+  | .str v, cell => cell = .null ∨ ∃ str, cell = .str str ∧ ((∃ pre k, str = pre ++ "*" ++ toString (k : Nat)) ∨ some str ∈ v)
+
+/-- a cell that fits the convertor `materialize_tree` uses for a column fits the column -/
+theorem colFits_of_fitted (E : Env α) (F : Forest α) (cols : List (RawCol α)) (nrows : Nat) (j : Nat) (hj : j < cols.length) (cell : Cell α)
+    (h : CellFits ((analyzeConvertors E F (fitTable E cols nrows).1).getD j .bool) cell) : ColFits cols[j] cell := by
+  have hlen : (fitTable E cols nrows).1.length = cols.length := by simp [fitTable]
+  have hget : (fitTable E cols nrows).1[j]'(by rw [hlen]; exact hj) = (fitColumn E cols[j]).1 := by simp [fitTable]
+  unfold analyzeConvertors at h
+  rw [List.getD_eq_getElem?_getD, List.getElem?_map] at h
+  have hz : (List.zip (List.range (fitTable E cols nrows).1.length) (fitTable E cols nrows).1)[j]? = some (j, (fitColumn E cols[j]).1) := by
+    rw [List.getElem?_zip_eq_some]
+    refine ⟨?_, ?_⟩
+    · rw [List.getElem?_range (by rw [hlen]; exact hj)]
+    · rw [List.getElem?_eq_getElem (by rw [hlen]; exact hj), hget]
+  rw [hz] at h
+  simp only [Option.map_some, Option.getD_some] at h
+  cases hc : cols[j] with
+  | bool v => rw [hc] at h; simpa [fitColumn, CellFits, ColFits] using h
+  | int v =>
+    rw [hc] at h
+    simp only [fitColumn] at h
+    simpa [CellFits, ColFits] using h
+  | real v =>
+    rw [hc] at h
+    simp only [fitColumn] at h
+    simpa [CellFits, ColFits] using h
+  | ts v =>
+    rw [hc] at h
+    simp only [fitColumn] at h
+    simpa [CellFits, ColFits] using h
+  | str v =>
+    rw [hc] at h
+    simp only [fitColumn] at h
+    have key : ∀ safe, CellFits (.string (valueMapOf v) safe) cell → ColFits (.str v) cell := by
+      intro safe hf
+      rcases hf with h0 | ⟨str, h1, h2⟩
+      · exact Or.inl h0
+      · refine Or.inr ⟨str, h1, ?_⟩
+        rcases h2 with hm | hm
+        · exact Or.inl hm
+        · exact Or.inr ((mem_valueMapOf v str).mp hm)
+    split at h
+    · exact key _ h
+    · exact key _ h
+
+/-- **C07, value domains, from the typed input table (one cluster).**  Every row `Synthesizer(df, SingleClustering()).sample()` generates in the
+model has one cell per input column, and the cell of a column is a null or a value of that column's type — a boolean, an integer, a real, a
+timestamp; in a string column an input string of that column or a mask `prefix*index`. -/
+theorem C07_synthesize_single_domains (E : Env α) (cols : List (RawCol α)) (nrows : Nat) (names : List String)
+    (pids : Array (List UInt64)) (ap : AnonParams α) (bp : BucketParams) (kind : CounterKind)
+    (hn : 0 < nrows) (hc : 1 ≤ cols.length) (hlt : 0 ≤ ap.supp.lt)
+    (hstream : List Nat) (mstream : List (Draw α)) (rows : List (List (Cell α × α))) (drawn left : Nat)
+    (h : synthesizeSingle E cols nrows names pids ap bp kind hstream mstream = .ok (rows, drawn, left)) :
+    ∀ row ∈ rows, row.length = cols.length ∧ ∀ (j : Nat) (hj : j < cols.length) (hr : j < row.length), ColFits cols[j] row[j].1 := by
+  unfold synthesizeSingle forestOfTable at h
+  split at h
+  · cases h
+  · rename_i convs F hF
+    split at hF
+    · rename_i F' hinit
+      simp only [Except.ok.injEq, Prod.mk.injEq] at hF
+      obtain ⟨rfl, rfl⟩ := hF
+      have hsz : (fitTable E cols nrows).2.size = nrows := by simp [fitTable]
+      obtain ⟨_, hap, _, _⟩ := forest_init_ctx E _ F' hinit
+      unfold materializeTree at h
+      split at h
+      · cases h
+      · rename_i t ht
+        split at h
+        · cases h
+        · rename_i bs drawn' hh
+          simp only at h
+          split at h
+          · cases h
+          · rename_i rows' rest hm
+            simp only [Except.ok.injEq, Prod.mk.injEq] at h
+            obtain ⟨rfl, _, _⟩ := h
+            intro row hrow
+            obtain ⟨b, hb, hfor⟩ := microdata_cells E _ _ bs mstream rest rows' hm row hrow
+            have hbl := (C01_bucket_ranges_in_forest E _ F' hinit (by simp only [hsz]; exact hn) (by rw [hap]; exact hlt) 8 (List.range cols.length)
+              (by simpa using hc) t ht hstream bs drawn' hh b hb).1
+            have hlenrow : row.length = cols.length := by
+              rw [← hfor.length_eq]
+              simp [hbl]
+            refine ⟨hlenrow, fun j hj hr => ?_⟩
+            have hget := List.forall₂_iff_get.mp hfor
+            have hjz : j < (List.zip b.ivs (List.zip ((List.range cols.length).map fun j => (analyzeConvertors E F' (fitTable E cols nrows).1).getD j Conv.bool)
+                ((List.range cols.length).map fun j => F'.nullMaps.getD j (ofInt 0)))).length := by rw [hget.1]; exact hr
+            obtain ⟨s, s', hrun⟩ := hget.2 j hjz hr
+            simp only [List.get_eq_getElem, List.getElem_zip, List.getElem_map, List.getElem_range] at hrun
+            have hfits := C07_cell_fits E _ _ _ s s' row[j].1 row[j].2 hrun
+            exact colFits_of_fitted E F' cols nrows j hj _ hfits
+    · cases hF
+
+end
